@@ -1597,6 +1597,30 @@ val fn_in_domain_b : fn_decl -> bool
 
 val in_domain_b : program -> bool
 
+val direct_lets : stmt list -> string list
+
+val bodies_if : ifstmt -> stmt list list
+
+val bodies_stmt : stmt -> stmt list list
+
+val kid_bodies : stmt list -> stmt list list
+
+val direct_decls : block -> value list
+
+val build_table :
+  string list -> value list -> (string * value) list -> (string * value) list
+  option
+
+val table_eqb0 : (string * value) list -> (string * value) list -> bool
+
+val chk_vals : nat -> string list -> stmt list -> block -> bool
+
+val chk_C18_values_fn : fn_decl -> block -> bool
+
+val chk_C18_values_fns : fn_decl list -> block list -> bool
+
+val chk_C18_values : program -> output -> bool
+
 type json =
 | JNull
 | JBool of bool
